@@ -307,7 +307,7 @@ Definition eval_quadric (q : list T) (pt : vec) : res T :=
   Ok (q0 * sq x + q1 * sq y + q2 * sq z + q3 * x * y + q4 * y * z + q5 * z * x
       + q6 * x + q7 * y + q8 * z + q9).
 
-(* the SQ -> GQ expansion (first half of Python's sq_to_gq) *)
+(* the SQ -> GQ expansion *)
 Definition sq_expand (a b c d e f g x y z : T) : list T :=
   let two := s2 S in
   [a; b; c; zero; zero; zero;
@@ -316,17 +316,15 @@ Definition sq_expand (a b c d e f g x y z : T) : list T :=
    two * f - two * c * z;
    a * sq x + b * sq y + c * sq z - two * (d * x + e * y + f * z) + g].
 
-(* ConversionSurfaceMCNPToT4.sq_to_gq(sq_params): the expansion, negated when
-   the quadric is positive at (x, y, z) *)
+(* ConversionSurfaceMCNPToT4.sq_to_gq(sq_params): the expansion, with the sign
+   of the card (no flip) *)
 Definition sq_to_gq (prm : list (option T)) : res (list T) :=
   let get i := match nth_error prm i with
                | Some (Some v) => Ok v | Some None => Err EType | None => Err EIndex end in
   do a <- get 0%nat; do b <- get 1%nat; do c' <- get 2%nat; do d <- get 3%nat;
   do e <- get 4%nat; do f <- get 5%nat; do g <- get 6%nat; do x <- get 7%nat;
   do y <- get 8%nat; do z <- get 9%nat;
-  let gq := sq_expand a b c' d e f g x y z in
-  do v <- eval_quadric gq (x, y, z);
-  Ok (if zero <? v then map (sneg S) gq else gq).
+  Ok (sq_expand a b c' d e f g x y z).
 
 (* convert_special_quadric(val) = T4S.QUAD, sq_to_gq(val.compl_param) *)
 Definition convert_special_quadric (c : cad) : res t4surf :=
